@@ -122,7 +122,7 @@ func (ro *Roles) expiryHandler(r *Report, rule string) {
 	}
 	fn := ro.Expiry
 	fname := FuncName(fn)
-	res := w.EnumPaths(fn, EnumOpts{})
+	res := w.EnumPaths(fn, EnumOpts{Inline: true})
 	r.Count("paths", len(res.Paths))
 	ok := true
 	detail := ""
@@ -207,17 +207,37 @@ func (ro *Roles) expiryHandler(r *Report, rule string) {
 	for _, f := range ro.rootFuncs() {
 		for _, st := range ro.storesTo(f, "PipelineJob.startTimer", func(s *ssa.Store) bool { return isNilConst(s.Val) }) {
 			key := FuncName(f) + ": startTimer = nil"
+			// a store in a helper is judged in the anchor the helper is spliced into
+			host := f
+			if hs, other := ro.hostsOf(f); len(hs) == 1 && !other {
+				host = hs[0]
+			}
 			switch {
-			case f == ro.Expiry:
+			case host == ro.Expiry:
 				r.OK(rule+".who-clears", key, w.InstrPos(st), "the expiry handler (reachable only as the timer's callback and the exported API)")
-			case f == ro.Accept:
+			case host == ro.Accept:
 				// replace: the slot is overwritten on every path afterwards
-				slot := strings.TrimSuffix(w.apAddr(st.Addr), ".startTimer")
-				res := PathQuery{Fn: f, Start: []ssa.Instruction{st}, Target: isReturn, BlockInstr: func(x ssa.Instruction) bool {
-					s2, ok := x.(*ssa.Store)
-					return ok && w.apAddr(s2.Addr) == slot
-				}}.Find()
-				r.Check(!res.Found, rule+".who-clears", key, w.InstrPos(st), "replace: the job's slot is overwritten on every path afterwards (it leaves the list for good)", "the timer of a job that stays listed is cleared: it can start before its delay has passed")
+				res := w.EnumPaths(host, EnumOpts{Inline: true})
+				okW, seen := !res.Truncated, false
+				for _, p := range res.Paths {
+					for i, e := range p.Effects {
+						if e.In != ssa.Instruction(st) {
+							continue
+						}
+						seen = true
+						slot := strings.TrimSuffix(e.Target, ".startTimer")
+						over := false
+						for _, e2 := range p.Effects[i+1:] {
+							if e2.Kind == "store" && e2.Target == slot {
+								over = true
+							}
+						}
+						if !over && p.End == "return" {
+							okW = false
+						}
+					}
+				}
+				r.Check(okW && seen, rule+".who-clears", key, w.InstrPos(st), "replace: the job's slot is overwritten on every path afterwards (it leaves the list for good)", "the timer of a job that stays listed is cleared: it can start before its delay has passed")
 			default:
 				_, removes := ro.removesFromWaitList(f, 0)
 				if !removes {
@@ -327,7 +347,7 @@ func (ro *Roles) dequeueIndependent(r *Report, rule string) {
 	}
 	fn := ro.DequeueDecision
 	fname := FuncName(fn)
-	res := w.EnumPaths(fn, EnumOpts{})
+	res := w.EnumPaths(fn, EnumOpts{Inline: true})
 	r.Count("paths", len(res.Paths))
 	vars := map[string]string{"arg0.StartDelay": "jobdelay", "arg0.startTimer": "timer"}
 	prefix := FuncName(ro.Admit) + "("
